@@ -9,3 +9,4 @@ for s in $seeds; do for i in $ids; do
   echo "$i tier=$tier seed=$s exit=$rc secs=$(( $(date +%s)-t0 )) :: $(echo "$out" | grep -v '^KNOWN-FINDING' | tail -1 | cut -c1-260)"
   [ $rc -ne 0 ] && { echo "$out" | head -8; head -c 2500 "$HERE/.work/sweep-$i-$tier-$s.err"; echo; }
 done; done
+exit 0
